@@ -68,6 +68,8 @@ def configs(tier):
     n = 4
     for i in range(n):
         c.append({"kind": "refs", "genes": ship[i::n]})
+    # generated databases with variants on the first / last mapped base and in repeats
+    c.append({"kind": "refs", "genes": ["GA", "GB", "GC", "GD", "GE"]})
     c.append({"kind": "anchor"})
     # equivalent-indel table of the long-read / no-realignment path (real indelpost
     # equivalents): every entry must denote the haplotype of the catalogued indel
@@ -531,6 +533,20 @@ def run_refs(cfg):
     for gname in cfg["genes"]:
         for b in ("hg19", "hg38"):
             g = gengene.load(gname, b)
+            # the two accessors of the genome-oriented reference agree, base by base, over
+            # the whole mapped range and two bases beyond it
+            lo, hi = min(g.chr_to_ref), max(g.chr_to_ref)
+            span = list(range(lo - 2, min(hi + 3, lo + 3000))) + list(range(max(lo, hi - 3000),
+                                                                            hi + 3))
+            diff = [i for i in span if g[i] != g[i:i + 1] and not (g[i] == "N" and
+                                                                   g[i:i + 1] == "")]
+            if diff:
+                bad += 1
+                res["violations"].append({
+                    "what": f"{gname}/{b}: gene[i] and gene[i:i+1] disagree at {diff[:3]} "
+                            f"(mapped range {lo}-{hi}): {g[diff[0]]!r} vs "
+                            f"{g[diff[0]:diff[0] + 1]!r}", "key": f"refs:{gname}:accessor",
+                    "replay": {"kind": "none"}})
             for (pos, op), info in g.mutations.items():
                 n += 1
                 okk = True
